@@ -328,13 +328,24 @@ def sym_duplicate_func(vc):
     from pyvc.api import real_function, LoopSpec, check, cover, yields_of, GenObj, sym_str, PyList, Tree, Opaque, UFunc
     fk = vc.under_contract(P + 'duplicate.py', ['duplicate', 'func'])
     vc.under_contract(P + 'duplicate.py', ['duplicate', 'func', 'traverse_resources'])
-    for to_end in (False, True):
+    for to_end in (False, True, 'defaults'):
         for mode in ('source', 'other'):
             def thunk(it, to_end=to_end, mode=mode):
                 maker = real_function(it, 'dataflows.processors.duplicate', 'duplicate')
-                src_name, tgt_name, tgt_path = sym_str(it, 'source'), sym_str(it, 'target_name'), sym_str(it, 'target_path')
-                func = it.call(maker, [], dict(source=src_name, target_name=tgt_name, target_path=tgt_path, duplicate_to_end=to_end))
+                defaults = to_end == 'defaults'
+                to_end = False if defaults else to_end
                 package = mk_package2(it)
+                if defaults:
+                    # duplicate(): the FIRST resource is copied, the copy is called '<name>_copy' and kept in '<name>_copy.csv'
+                    from pyvc.api import wrap, StrS
+                    func = it.call(maker, [], {})
+                    it.path.info['allowed_exc'] = {'IndexError': package.nres == 0}
+                    src_name = wrap(package.RESNAME(z3.IntVal(0)))
+                    tgt_name = wrap(z3.Concat(src_name.t, z3.StringVal('_copy')))
+                    tgt_path = wrap(z3.Concat(tgt_name.t, z3.StringVal('.csv')))
+                else:
+                    src_name, tgt_name, tgt_path = sym_str(it, 'source'), sym_str(it, 'target_name'), sym_str(it, 'target_path')
+                    func = it.call(maker, [], dict(source=src_name, target_name=tgt_name, target_path=tgt_path, duplicate_to_end=to_end))
                 m = it.module('dataflows.processors.duplicate')
                 dbs_made = []
 
@@ -344,7 +355,7 @@ def sym_duplicate_func(vc):
                     dbs_made.append(db)
                     return db
                 m.attrs['KVFile'] = UFunc('KVFile', KV, False)
-                tag = '[to_end=%s,%s]' % (to_end, mode)
+                tag = '[to_end=%s,%s]' % ('defaults' if defaults else to_end, mode)
                 # T6 (what is read back equals what was stored, for every cell type: datetimes with a fraction of a second or a zone,
                 # Decimals, tuples) is assumed for the store as it is created BY DEFAULT; another serializer is another contract
                 it.path.info['kv_check'] = lambda: all(d.ctor_args == ((), {}) for d in dbs_made)
@@ -365,8 +376,13 @@ def sym_duplicate_func(vc):
                         check(it, 'copy-placed-right-after-the-source' + tag, ok)
                         if ok:
                             c = ys[1].obj
-                            check(it, 'copy-renamed-and-repathed' + tag, c.children.get('name') is tgt_name and
-                                  c.children.get('path') is tgt_path)
+                            if defaults:
+                                from pyvc.api import term, StrS as _S
+                                check(it, 'copy-of-the-first-resource-named-and-pathed-after-it' + tag, z3.And(
+                                    term(c.children.get('name'), _S) == tgt_name.t, term(c.children.get('path'), _S) == tgt_path.t))
+                            else:
+                                check(it, 'copy-renamed-and-repathed' + tag, c.children.get('name') is tgt_name and
+                                      c.children.get('path') is tgt_path)
                     else:
                         check(it, 'copy-deferred-to-the-end' + tag, len(ys) == 1 and
                               len([e for e in events if e.kind == 'Append']) == 1)
